@@ -9,7 +9,7 @@ WALK_NOTE = ("Trusted base: the independent mailbox oracle (re-validated against
 
 CHECKS = {
  "C01": dict(tech="explicit-state exploration of the real make/unmake transition function (DFS, iterated depth bound) with set-equality against an independent rules oracle at every state",
-   text="Every position within the completed depth of ~260 feature-rich seeds (and their colour mirrors) is visited on the real Board; at each one the engine's legal-move multiset (with capture/en-passant/castle/double-push/promotion flags) and is_in_check for both colours must equal the oracle's. Exhaustive within the stated depth bounds, not sampled.",
+   text="Every position within the completed depth of ~260 feature-rich seeds (and their colour mirrors) is visited on the real Board; at each one the engine's legal-move multiset (with capture/en-passant/castle/double-push/promotion flags) and is_in_check for both colours must equal the oracle's; after every child's unmake the move list is generated again on the same live board and must be unchanged. Exhaustive within the stated depth bounds, not sampled.",
    ref="2/C01", note=WALK_NOTE),
  "C02": dict(tech="explicit-state exploration: every stack-disciplined make/unmake sequence up to the depth bound, whole-state snapshot equality after every unmake and after every query",
    text="The DFS itself is the set of all nested make/unmake sequences of length <= depth from every seed (including seeds whose history already repeats a position). Board == snapshot (derived PartialEq over every field) is demanded after each make+subtree+unmake, after get_legal_moves() and after find_move().",
@@ -33,31 +33,31 @@ CHECKS = {
    text="The evaluator is run on every position of an explorer walk and on all 59049 material signatures (0-2 of each non-king piece kind) x both sides to move, each together with its colour mirror and its side-swapped twin built by the oracle; the three values must satisfy the two symmetry equations.",
    ref="2/C17", note="Trusted base: the oracle's mirror construction and Board::from_fen (checked by C07). The material grid uses one fixed square arrangement per signature.", engine="explorer"),
  "C09": dict(tech="exhaustive enumeration of limit assignments (3^7) x deterministic interruption schedules (virtual clock expiring at the k-th limit check, stop at the k-th flag poll, every node budget 1..T) on the real Search code, plus bounded session enumeration on the real executable",
-   text="In-process, every assignment of the seven limit kinds (absent or one of two values, including 0 and 1) is combined with every schedule in {time never passes, clock expires at limit check k, stop lands at flag poll k} on each position, plus every node budget and every stop point of a depth-2 search consecutive searches on a kept cache and whole self-play games with the cache kept across positions; each run must return without panicking and log exactly one bestmove that is legal in the oracle's position. On the real executable the same assignments run with the real clock, up to three go per session each followed by isready, judged with a 5 s allowance.",
+   text="In-process, every assignment of the seven limit kinds (absent or one of two values, including 0 and 1) is combined with every schedule in {time never passes, clock expires at limit check k, stop lands at flag poll k} on each position, plus every node budget and every stop point of a depth-2 search consecutive searches on a kept cache, a stop delivered before the search starts, shallower searches of every position two plies away on the cache of a deeper search, positions lost for the side to move at depths 1..6, searches on a cache crowded with ~82 k foreign entries, capture-dense positions under every early-ending limit, and whole self-play games with the cache kept across positions; each run must return without panicking and log exactly one bestmove that is legal in the oracle's position. On the real executable the same assignments run with the real clock, up to three go per session each followed by isready, judged with a 5 s allowance.",
    ref="2/C09", note="""Trusted base: the hook runtime in src/rce_verif.rs (virtual clock, emulated stop, cache observer) and the assumption that it is the only source of time/stop nondeterminism in-process; single-threaded worker processes own their cache. Process-level timing uses loose wall-clock allowances.""", engine="cutpoints"),
- "C13": dict(tech="exhaustive enumeration of every interruption point of a search: re-execution per cut point for small searches (every node budget 1..T, every stop poll, every clock check on both clock paths, also on a warmed cache) and fork-based checkpointing for large ones (the process forks at every flag poll / limit check; the child is interrupted exactly there), with a differential prefix oracle on the observed cache writes and a cache-content snapshot oracle at stop cuts",
+ "C13": dict(tech="exhaustive enumeration of every interruption point of a search: re-execution per cut point for small searches (every node budget 1..T, every stop poll, every clock check on both clock paths and with the budget exceeded by a day, tenfold and by less than a factor of two, also on a warmed cache) and fork-based checkpointing for large ones (the process forks at every flag poll / limit check; the child is interrupted exactly there), with a differential prefix oracle on the observed cache writes and a cache-content snapshot oracle at stop cuts",
    text="For each (position, depth) pair the search is interrupted at every point at which it can be: the cache writes seen by the observer hook in the interrupted run must be a prefix of those of the uninterrupted run from the same initial cache; after an emulated stop (noticed by the very poll that delivers it) no write at all may follow and the cache contents must equal the snapshot taken at the cut, whichever insert site wrote. Large searches (up to 105 k nodes quick / 300 k thorough) are covered by forking the live search at each poll instead of re-executing the prefix.",
    ref="2/C13, 9.5", note="Trusted base: the hook runtime in src/rce_verif.rs (observer, snapshot, emulated stop, virtual clock, fork checkpoints). 'Clock fired' and 'nodes >= budget' are deliberately NOT taken as 'the engine has noticed the cut' (an engine that polls them every N nodes notices later and may legitimately write in between); those cuts are judged by the prefix oracle only. Quick tier: every second poll / check for the one large search.", engine="cutpoints"),
  "C14": dict(tech="exhaustive enumeration of depth limits N and of every cut point of node/time-limited searches, with a UCI info-line grammar and PV replay on the oracle; bounded session enumeration on the real executable",
-   text="For each position every depth limit N (fresh and kept cache) must log info depth 1..N in order, each line valid UCI with a score and a non-empty PV that is legal move by move on the oracle, then exactly one bestmove; every node budget and clock point of a depth-3 search is checked for ordering, grammar and PV legality; whole self-play games (one go depth 4 per ply, cache kept across the positions of the game) are checked the same way, so stale cache entries of earlier searches are on the PV walk; go depth N is repeated on the real executable.",
-   ref="2/C14", note="""One sub-check is SAMPLED, not exhaustive, and labelled so in the evidence: an isready flood while the search thread prints ~100 iterations (both threads writing to stdout at once; a torn line is a definite violation, its absence only samples the OS scheduling). Trusted base: the hook runtime in src/rce_verif.rs (virtual clock, emulated stop, cache observer) and the assumption that it is the only source of time/stop nondeterminism in-process; single-threaded worker processes own their cache. Mate-distance correctness is not demanded.""", engine="cutpoints"),
+   text="For each position every depth limit N (fresh and kept cache) must log info depth 1..N in order, each line valid UCI with a score and a non-empty PV that is legal move by move on the oracle, then exactly one bestmove; every node budget and clock point of a depth-3 search is checked for ordering, grammar and PV legality; positions lost for the side to move, repetition-bait histories and searches on a cache crowded with ~82 k foreign entries are checked the same way; whole self-play games (one go depth 4 per ply, cache kept across the positions of the game) are checked the same way, so stale cache entries of earlier searches are on the PV walk; go depth N is repeated on the real executable.",
+   ref="2/C14", note="""One sub-check is SAMPLED, not exhaustive, and labelled so in the evidence: a backlog-driven isready flood (24 rounds quick, 100 thorough) while the search thread prints ~100 iterations (both threads writing to stdout at once; a torn line is a definite violation, its absence only samples the OS scheduling). Trusted base: the hook runtime in src/rce_verif.rs (virtual clock, emulated stop, cache observer) and the assumption that it is the only source of time/stop nondeterminism in-process; single-threaded worker processes own their cache. Mate-distance correctness is not demanded.""", engine="cutpoints"),
  "C15": dict(tech="exhaustive enumeration of all token strings up to length 4 (5 on a reduced alphabet) over the UCI vocabulary through the real parser and command loop, plus all sessions of <=2 (3) representative lines on the real executable ended by quit and by end-of-input",
-   text="Every token string up to the length bound is parsed by UCICommand::new under catch_unwind (a panic there kills the main thread) and a seventh of the non-search lines is executed through the real uci_loop; on the real executable every session of representative valid and malformed lines, each followed by isready, must answer readyok within 5 s and exit within 5 s of quit and of closed stdin.",
+   text="Every token string up to the length bound is parsed by UCICommand::new under catch_unwind (a panic there kills the main thread) and a seventh of the non-search lines is executed through the real uci_loop; every numeric argument of go / setoption is parsed with all values 0..=300, every power of two up to 2^128 with its neighbours and negative boundary values; on the real executable every session of representative valid and malformed lines, each followed by isready, must answer readyok within 5 s and exit within 5 s of quit and of closed stdin.",
    ref="2/C15", note="FEN contents are not fuzzed (the property assumes valid FEN). Search-thread panics are counted but not judged by this property.", engine="sessions"),
  "C10": dict(tech="stateless exploration of all merges of a GUI command script with the search thread's labelled steps on the real executable (blocking schedule points; deviation-bounded in quick, all merges in thorough), each schedule on a fresh process and replay-checked",
-   text="For seven command scripts every interleaving of the input thread's commands with the search thread's held points {enter, armed, first iteration done, before bestmove, after bestmove, exit} that respects the GUI protocol is executed on the real binary; per schedule every go must be answered by exactly one bestmove legal in the position it was given, a processed stop must bring the bestmove within 5 s, every isready a readyok, and nothing may be reported as refused. Quick: all schedules with <= 2 deviations from the default order; thorough: all of them.",
-   ref="2/C10", note="Trusted base: the schedule-point hand-shake in src/rce_verif.rs and the controller. Interleavings finer than the labelled points are not explored; an unbounded search is kept at its first iteration boundary until a stop is sent (a stop mid-iteration is observationally the same: the flag is read only at polls).", engine="scheduler"),
+   text="For seven command scripts every interleaving of the input thread's commands with the search thread's held points {enter, armed, first iteration done, before bestmove, after bestmove, exit} that respects the GUI protocol is executed on the real binary; per schedule every go must be answered by exactly one bestmove legal in the position it was given, a processed stop must bring the bestmove within 5 s, every isready a readyok, and nothing may be reported as refused. Quick: all schedules with <= 2 deviations from the default order; thorough: all of them. A failing schedule is accepted only if two of three executions agree.",
+   ref="2/C10, 9.8", note="One sub-check is SAMPLED, not exhaustive, and labelled so in the evidence: a backlog-driven isready flood while the search thread prints ~100 iteration reports (24 rounds quick, 100 thorough; a torn or glued stdout line is a definite violation, its absence only samples the OS scheduling of the two threads inside the print path, where no schedule point can be placed). Trusted base: the schedule-point hand-shake in src/rce_verif.rs and the controller. Interleavings finer than the labelled points are not explored; an unbounded search is kept at its first iteration boundary until a stop is sent (a stop mid-iteration is observationally the same: the flag is read only at polls).", engine="scheduler"),
  "C08": dict(tech="explicit-state exploration of game paths replayed through the real UCI command loop, exhaustive enumeration of the 20480-string coordinate-notation alphabet per sampled position, all single-move corruptions of each path, and all command sequences up to length 4 against a 1-variable session model; conformance sessions on the real executable",
    text="Every path of an explorer walk is sent as 'position fen F moves ...' (and 'position startpos moves ...') through the real uci_loop inside a session that already holds another position; the resulting session position must equal the oracle's position after those moves in every component, with the same key and repetition record as the game played move by move. For a subset of positions every from-to-suffix string is accepted exactly when legal; every single-move corruption of a path must leave the previous position in force; all 1555 sequences of <=4 commands over {position A, position B, B with an illegal move, position with en passant, ucinewgame, isready} must end in the model's position.",
    ref="2/C08", note=WALK_NOTE + " FEN arguments are valid six-field FENs.", engine="sessions"),
  "C11": dict(tech="exhaustive comparison over a (position, depth) grid of the engine's fixed-depth result (cache neutralised by hook) with the exact minimax value of its look-ahead game computed by an unpruned reference search on the oracle (R0), with a textbook alpha-beta (R1) validated against R0 where R0 is too expensive",
    text="For each position (with and without game history, clocks near 100, one ply away from the base set) and each depth the reference can afford, the engine's root score must equal the exact value of the look-ahead game defined in the property, and the reference value of the move it picked must equal that root value. The reference shares no code with the engine (oracle move generator, own material count, plain negamax).",
    ref="2/C11", note="Trusted base: the reference searches (R1 == R0 is re-checked on every pair R0 can afford; a mismatch is a machinery error) and the tt_neutralise hook. Depths beyond the reference's node cap are not covered.", engine="refsearch"),
- "C12": dict(tech="exhaustive enumeration of cache histories (all sequences of <=2 earlier completed searches at depths 1..4, 21 per position and depth) over all solver-classified positions in the neighbourhood of mating seeds, judged by an exhaustive mate solver on the oracle",
-   text="Every position within the bound of the mating/tactical seeds that the exhaustive solver classifies as mate-in-1, mate-in-2 or avoidable mate-in-1 threat is searched to depth 3 and 4 with the cache ON after every history of earlier completed searches of the same position; the chosen move must mate / keep a forced mate / not allow a mate in one.",
+ "C12": dict(tech="exhaustive enumeration of cache histories (all sequences of <=2 earlier completed searches at depths 1..4, 21 per position and depth) over all solver-classified positions in the neighbourhood of mating seeds and five generated families (busy, minor-piece, many-queens, promotion, greedy-trap), judged by an exhaustive mate solver on the oracle",
+   text="Every position within the bound of the mating/tactical seeds that the exhaustive solver classifies as mate-in-1, mate-in-2 or avoidable mate-in-1 threat is searched to depth 3 and 4 with the cache ON after every history of earlier completed searches of the same position; the generated families (6300 positions re-classified by the solver at run time: every decisive move a promotion, decisive moves generated after index 128, quiet keys next to a material-winning alternative, ...) are searched from a fresh cache and, for the first positions of each class, after the short list of histories; the chosen move must mate / keep a forced mate / not allow a mate in one.",
    ref="2/C12", note="Trusted base: the mate solver on the oracle. 'Keeps a forced mate' accepts any forced mate the solver establishes within two more attacker moves.", engine="refsearch"),
- "C16": dict(tech="complete enumeration of a (position, depth) grid, each pair searched twice in one process and in three concurrently running worker processes, plus concurrent runs of the bench subcommand compared with each other and with separately computed fresh-cache node counts",
-   text="All (best move, score, nodes) triples of the grid must agree within a process (cache emptied in between) and across three different processes under full CPU load; concurrent bench runs must print the same node total, which must equal the sum of the 62 positions searched one by one from an empty cache.",
+ "C16": dict(tech="complete enumeration of a (position, depth) grid, each pair searched three times in one process (also right after searches of its ancestors and descendants on the principal variation) and in three concurrently running worker processes whose first searches differ, plus concurrent runs of the bench subcommand compared with each other and with separately computed fresh-cache node counts",
+   text="All (best move, score, nodes) triples of the grid must agree within a process (cache emptied in between; predecessor alphabet: the same position, an unrelated position, a very large search, the position one or two plies up the principal variation) and across three different processes under full CPU load whose first search is a White-to-move or a Black-to-move tactical position by process parity; concurrent bench runs must print the same node total, which must equal the sum of the 62 positions searched one by one from an empty cache.",
    ref="2/C16", note="Hash seeds and OS scheduling cannot be enumerated or owned without rewriting engine lines: those two dimensions are sampled (3 processes per pair); the check can refute determinism but supports it only for the causes it exercises.", engine="cutpoints"),
 }
 
